@@ -406,6 +406,8 @@ class Analysis:
         out: Set[Tuple[str, str]] = set()
         if node.exc is None:
             return out
+        if self._escapes is None:
+            self._solve_escapes()
         for t in self.node_raise_types(fn, node):
             if t != "<reraise>":
                 out.add((t, fn.qualname))
